@@ -1188,3 +1188,53 @@ def vetted_spawns(ctx, rule, crates=("jsonrpsee_server", "jsonrpsee_core")):
         per[site[0]] = per.get(site[0], 0) + 1
         R.check(per[site[0]] <= site[1], rule, "spawn-site:%s#%d" % (fkey(b), per[site[0]]), "vetted spawn: %s" % site[2], "%s has more spawn sites (%d) than the %d vetted ones (%s)" % (short(b.path), per[site[0]], site[1], site[2]), where(c))
     R.floor(rule, n, 8, "spawn sites on the server side")
+
+
+def soketto_inbound_limits(ctx, rule, want="max_request_body_size"):
+    """everything that bounds what the WebSocket side *receives* (soketto's connection Builder: set_max_message_size,
+    set_max_frame_size, ...) is configured from the request limit and from nothing else: the response limit must never
+    decide which requests are accepted, and vice versa"""
+    F, R = ctx.F, ctx.R
+    tr = ctx.tracer()
+    n = 0
+    for c in F.all_calls(r"^soketto::connection::Builder::<.*>::set_\w+$"):
+        b = c.body
+        if b.crate != SERVER or is_test_body(b) or len(c.args) < 2:
+            continue
+        n += 1
+        R.fn(b)
+        leaves = tr.origins(b, c.args[1])
+        good, bad, sk = classify_config_leaves(leaves, want, ("jsonrpsee_server",))
+        opt = (c.name() or "").split("::")[-1]
+        if bad or not good:
+            R.bad(rule, "%s:%s" % (fkey(b), opt), "the WebSocket inbound limit %s in %s is not the configured %s: %s - a request is refused (or admitted) because of another setting" % (opt, short(b.path), want, "; ".join(w for _, w in bad) or "no origin in %s" % want), where(c))
+        else:
+            R.ok(rule, "%s:%s" % (fkey(b), opt), "%s is configured from %s" % (opt, want), where(c))
+    R.floor(rule, n, 2, "soketto inbound-limit setters")
+
+
+def manager_keys_not_derived(ctx, rule, floor=10):
+    """the RequestManager's tables are addressed by the ids it was given: no method of the manager builds a *different*
+    key from its argument (a number re-encoded as a string, a parsed string, a formatted id) to try a second lookup.
+    `7` and `"7"` are different subscription ids; a lookup that treats them alike routes notifications of an unknown or
+    closed id into a live subscription."""
+    F, R = ctx.F, ctx.R
+    tr = ctx.tracer(follow_callers=False, follow_fields=False)
+    n = 0
+    for b in F.real_bodies():
+        if not re.search(r"^jsonrpsee_core::client::async_client::manager::RequestManager::\w+$", b.path) or is_test_body(b):
+            continue
+        bodies = F.nested(b)
+        for x in bodies:
+            for c in x.calls_to(r"HashMap::<.*>::(get|get_mut|remove|remove_entry|entry|contains_key|get_key_value)$"):
+                if len(c.args) < 2:
+                    continue
+                n += 1
+                R.fn(x)
+                lv = tr.origins(x, c.args[1])
+                derived = [l for l in lv if (l.kind == "agg" and re.search(r"(SubscriptionId|params::Id)$", l.detail.get("adt") or "")) or (l.kind == "call" and re.search(r"to_string$|str::<impl str>::parse$|fmt::format$|FromStr>::from_str$", l.detail["callee"] or ""))]
+                R.check(not derived, rule, "%s:%s-key" % (fkey(x), (c.name() or "").split("::")[-1]), "%s looks its table up with the id it was given" % short(b.path), "%s looks a table up with a key it built itself (%s): ids that merely look alike (7 and \"7\") are treated as the same id" % (short(b.path), [leaf_str(l)[:60] for l in derived]), where(c))
+        # one keyed lookup per table per method call would be too strict; but a *fallback* lookup chain is the tell-tale
+        ors = [c for x in bodies for c in x.calls_to(r"Option::<.*>::(or_else|or|xor)$")]
+        R.check(not ors, rule, "%s:no-fallback-lookup" % fkey(b), "%s has no fallback lookup" % short(b.path), "%s chains a second lookup after a miss (%s)" % (short(b.path), sorted({short(c.name()) for c in ors})), where(ors[0]) if ors else None)
+    R.floor(rule, n, floor, "keyed table operations in RequestManager")
